@@ -5,7 +5,7 @@
 //! X(u) = k.  The cases arrive as CASE lines from TLC (MCRejection); TraceRejection.tla compares with the documented pmf.
 use crate::rng::{ScriptRng, Sm};
 use crate::util::*;
-use rand_distr::{Beta, Distribution, Zeta, Zipf};
+use rand_distr::{Beta, Binomial, Distribution, Poisson, Zeta, Zipf};
 use serde_json::{json, Value};
 use std::io::{BufRead, Write};
 
@@ -16,6 +16,7 @@ fn mk(fam: &str, p: &[f32]) -> Option<S32> {
         "Zipf" => { let d = Zipf::<f32>::new(p[0], p[1]).ok()?; Box::new(move |r| d.sample(r)) }
         "Zeta" => { let d = Zeta::<f32>::new(p[0]).ok()?; Box::new(move |r| d.sample(r)) }
         "Beta" => { let d = Beta::<f32>::new(p[0], p[1]).ok()?; Box::new(move |r| d.sample(r)) }
+        "Poisson" => { let d = Poisson::<f32>::new(p[0]).ok()?; Box::new(move |r| d.sample(r)) }
         _ => return None,
     })
 }
@@ -80,6 +81,20 @@ fn run_range(s: &S32, lo: u64, hi: u64, kmax: usize, seed: u64, xs: &[f32]) -> P
     p
 }
 
+/// Knuth's multiplication method (Poisson with lambda < 12, Binomial's Poisson limit): X = 0 iff the call returns after one
+/// word, and those words form a prefix of the word range; their exact number by bisection over all 2^64 words (f64 samplers)
+fn one_word_count(sample: &dyn Fn(&mut ScriptRng) -> f64) -> (u128, bool, f64) {
+    let mut r = ScriptRng::new(vec![0], 0);
+    let mut call = |w: u64| -> (f64, u64) { r.prefix[0] = w; r.pos = 0; r.state = w ^ 0x77; r.n32 = 0; r.n64 = 0; r.nbytes = 0; let v = sample(&mut r); (v, r.words()) };
+    let (v0, n0) = call(0);
+    if n0 != 1 { return (0, true, v0); }
+    let (mut a, mut b) = (0u128, (1u128 << 64) - 1);       // largest w with a one-word return, in [a, b]
+    while a < b { let m = a + (b - a + 1) / 2; if call(m as u64).1 == 1 { a = m; } else { b = m - 1; } }
+    // witness: the one-word returns are zeros, the next word is not a one-word return
+    let ok = call(a as u64).0 == 0.0 && (a == (1u128 << 64) - 1 || call((a + 1) as u64).1 > 1);
+    (a + 1, ok, v0)
+}
+
 pub fn drive(args: &[String]) -> i32 {
     let seed = arg_u64(args, "--seed", 1);
     let outp = arg_val(args, "--out").unwrap();
@@ -101,6 +116,20 @@ pub fn drive(args: &[String]) -> i32 {
         let xs: Vec<f32> = xs_s.iter().map(|s| s.parse::<f32>().unwrap()).collect();
         let kmax = if xs.is_empty() { c["k"].as_u64().unwrap() as usize } else { xs.len() };
         let mut base = json!({"op": "law", "case": id, "fam": fam, "ft": "f32", "params": params.iter().map(|x| format!("{:e}", x)).collect::<Vec<_>>()});
+        if fam == "Poisson64" || fam == "BinomialPoisson" {
+            let ps: Vec<f64> = c["params"].as_array().unwrap().iter().map(|s| s.as_str().unwrap().parse::<f64>().unwrap()).collect();
+            let fam2 = fam.clone();
+            let res = guarded(move || {
+                if fam2 == "Poisson64" { let d = Poisson::<f64>::new(ps[0]).expect("constructor"); one_word_count(&|r| d.sample(r)) }
+                else { let d = Binomial::new(ps[0] as u64, ps[1]).expect("constructor"); one_word_count(&|r| d.sample(r) as f64) }
+            });
+            base["op"] = json!("knuth64"); base["ft"] = json!("f64");
+            match res {
+                Ok((cnt, ok, v0)) => { base["res"] = json!("Ok"); base["p0"] = json!(limbs128(cnt)); base["witness"] = json!(ok); base["show"] = json!([format!("{:.17}", cnt as f64 / 18446744073709551616.0), format!("{}", v0)]); }
+                Err(p) => { base["res"] = json!(format!("Panic: {}", p)); base["p0"] = json!([0, 0, 0]); base["witness"] = json!(false); }
+            }
+            writeln!(f, "{}", base).unwrap(); nev += 1; calls += 130; continue;
+        }
         let parts: Vec<Result<Part, String>> = {
             let mut hs = vec![];
             for t in 0..nthreads {
@@ -122,8 +151,12 @@ pub fn drive(args: &[String]) -> i32 {
         let mut probes = vec![];
         for p in parts { for k in 0..kmax { a[k] += p.a[k]; } tail += p.tail; total += p.total; one_word += p.one_word; other += p.other; nonint += p.nonint; calls += p.calls; probes.extend(p.samples); }
         // a one-word return (Zeta's documented +inf for s near 1) is an outcome of its own with the full weight of its proposal word
-        let denom = total + one_word;
+        // Knuth (no rejection): every ticket is an outcome; the tickets that need a third word are the tail
+        let knuth = fam == "Poisson";
+        if knuth { tail = (1u128 << 48) - one_word - total; }
+        let denom = if knuth { 1u128 << 48 } else { total + one_word };
         let norm = |x: u128| -> Vec<i64> { if denom == 0 { vec![0, 0, 0] } else { limbs128((x << 64) / denom) } };     // one integer division: counts -> probability in units of 2^-64
+        if knuth { base["op"] = json!("knuth32"); }
         if !xs.is_empty() { let mut run = 0u128; for k in 0..kmax { run += a[k]; a[k] = run; } base["op"] = json!("lawc"); base["xs"] = json!(xs_s); }   // cumulative counts at the anchors
         base["res"] = json!("Ok"); base["P"] = json!(a.iter().map(|&x| norm(x)).collect::<Vec<_>>()); base["tail"] = json!(norm(tail)); base["A"] = json!(limbs128(total));
         base["oneword"] = json!(norm(one_word)); base["other"] = json!(other); base["nonint"] = json!(nonint);
